@@ -73,6 +73,8 @@ func (f *Fix) mkChannel(n int, clientID, hubChan, cpChan string) {
 // WriteAcknowledgement): a receipt protects against redelivery; the callback runs in a cache context
 // that is written iff the ack is nil (async) or successful; a non-nil ack is written.
 // Returns "replay" | "async" | "ackok" | "ackerr" | "panic".
+// (MsgAcknowledgement / MsgTimeout: see ibcAckCls / ibcTimeoutCls in packets_util.go — the commitment
+// must exist and is deleted, then the callback; a callback error fails (reverts) the whole message.)
 func (f *Fix) ibcRecv(pkt channeltypes.Packet, proofHeight uint64, relayer sdk.AccAddress) (res string) {
 	ck := f.App.IBCKeeper.ChannelKeeper
 	if _, found := ck.GetPacketReceipt(f.Ctx, pkt.DestinationPort, pkt.DestinationChannel, pkt.Sequence); found {
@@ -111,48 +113,7 @@ func (f *Fix) ibcRecv(pkt channeltypes.Packet, proofHeight uint64, relayer sdk.A
 	return res
 }
 
-// ibcAck stands for MsgAcknowledgement: the commitment must exist and is deleted, then the callback;
-// a callback error fails (reverts) the whole message.  Returns "replay" | "ok" | "err" | "panic".
-func (f *Fix) ibcAck(pkt channeltypes.Packet, ack []byte, proofHeight uint64, relayer sdk.AccAddress) string {
-	ck := f.App.IBCKeeper.ChannelKeeper
-	if len(ck.GetPacketCommitment(f.Ctx, pkt.SourcePort, pkt.SourceChannel, pkt.Sequence)) == 0 {
-		return "replay"
-	}
-	err := f.Try(func(ctx sdk.Context) error {
-		f.deleteCommitment(ctx, pkt)
-		uid := commontypes.NewPacketUID(commontypes.RollappPacket_ON_ACK, pkt.SourcePort, pkt.SourceChannel, pkt.Sequence)
-		ctx = commontypes.CtxWithPacketProofHeight(ctx, uid, clienttypes.NewHeight(1, proofHeight))
-		return f.App.TransferStack.OnAcknowledgementPacket(ctx, pkt, ack, relayer)
-	})
-	return pkErr3(err)
-}
-
-// ibcTimeout stands for MsgTimeout.
-func (f *Fix) ibcTimeout(pkt channeltypes.Packet, proofHeight uint64, relayer sdk.AccAddress) string {
-	ck := f.App.IBCKeeper.ChannelKeeper
-	if len(ck.GetPacketCommitment(f.Ctx, pkt.SourcePort, pkt.SourceChannel, pkt.Sequence)) == 0 {
-		return "replay"
-	}
-	err := f.Try(func(ctx sdk.Context) error {
-		f.deleteCommitment(ctx, pkt)
-		uid := commontypes.NewPacketUID(commontypes.RollappPacket_ON_TIMEOUT, pkt.SourcePort, pkt.SourceChannel, pkt.Sequence)
-		ctx = commontypes.CtxWithPacketProofHeight(ctx, uid, clienttypes.NewHeight(1, proofHeight))
-		return f.App.TransferStack.OnTimeoutPacket(ctx, pkt, relayer)
-	})
-	return pkErr3(err)
-}
-
 func (f *Fix) deleteCommitment(ctx sdk.Context, pkt channeltypes.Packet) {
 	st := ctx.KVStore(f.App.GetKVStoreKeys()["ibc"])
 	st.Delete(host.PacketCommitmentKey(pkt.SourcePort, pkt.SourceChannel, pkt.Sequence))
-}
-
-func pkErr3(err error) string {
-	if err == nil {
-		return "ok"
-	}
-	if IsPanic(err) {
-		return "panic"
-	}
-	return "err"
 }
